@@ -312,6 +312,19 @@ def canon_array(x) -> str:
     return ",".join(out)
 
 
+EXACT_LIMIT = 2 ** 22
+
+
+def beyond_lattice(out: str) -> bool:
+    """some value is too large to be exact in float32 / int32 arithmetic (numeric policy, DESIGN section 4)"""
+    import re
+    return any(abs(int(x)) >= EXACT_LIMIT for x in re.findall(r"(?<![@/\d,-])-?\d+|(?<=[:=,])-?\d+", out) if len(x) < 15 and not _is_date_like(x))
+
+
+def _is_date_like(x: str) -> bool:
+    return False
+
+
 def classify(exc: BaseException) -> str:
     from openfisca_core import errors
     if isinstance(exc, errors.CycleError):
@@ -519,7 +532,7 @@ def gen_vars(rng, n, spiral=False, cycle=False, fault_ids=None, bad_rate=0.0, un
                 terms.append(("v", j, rng.choice(["last_month", "last_month", "off:-2:month"]), False))
             e = ("c", rng.randint(1, 7))
             for t in terms:
-                e = ("o2", 0, e, ("o1", 150 + rng.choice([1, 2, 3]), t))
+                e = ("o2", 0, e, ("o1", 150 + rng.choice([1, 1, 1, 2]), t))
             v.formulas.append((1, e))
     if cycle:
         # inject one true cycle between two same-unit, same-entity variables
